@@ -430,7 +430,14 @@ HARNESSES = [
                 # sentinel exits: residual negative on the whole window / positive on the whole window
                 dict(part="sentinels", _pin=dict(cs2=0.2, cb2=0.3, alN=0.05, psiN=0.9, wN=2.0, pN=0.4, Tn=1.0)),
                 dict(part="sentinels", cap=1.0, _pin=dict(cs2=0.4, cb2=0.2, alN=0.05, psiN=0.99, wN=2.0, pN=0.4, Tn=1.0))],
-               max_paths=200, timeout_s=60,
+               # thorough: without the fully symbolic sentinel case -- with the thorough time budget its
+               # exploration reaches queries on which z3 enters a non-interruptible algebraic-number
+               # computation (observed: > 1 h at 100 % CPU); the quick tier keeps it within its budget
+               [dict(part="residual"),
+                dict(part="sentinels", _pin=dict(cs2=0.2, cb2=0.3, alN=0.05, psiN=0.9, wN=2.0, pN=0.4, Tn=1.0)),
+                dict(part="sentinels", cap=1.0, _pin=dict(cs2=0.4, cb2=0.2, alN=0.05, psiN=0.99, wN=2.0, pN=0.4, Tn=1.0)),
+                dict(part="sentinels", cap=100.0, _pin=dict(cs2=1 / 3, cb2=0.3, alN=0.05, psiN=0.9, wN=2.0, pN=0.4, Tn=1.0))],
+               max_paths=200, timeout_s=60, timeout_s_thorough=60,  # longer z3 budgets reach a non-interruptible algebraic-number phase
                axioms=AX, encodes=[HT.HydrodynamicsTemplateModel.maxAl, HT.HydrodynamicsTemplateModel._eqWall],
                random_validation=2, concrete_alarms=False, feas_timeout_ms=300),
     HarnessDef("shooting-residual", h_shooting, [dict()], max_paths=60, timeout_s=120, axioms=AX,
